@@ -33,8 +33,8 @@ def run(ctx: CheckContext):
     analyse(ctx, p)
     ctx.floor("MEMO-M1", 4)       # the loader's writer exits
     ctx.floor("API-DF", 8)
-    ctx.floor("BOUND-LEN", 2)
-    ctx.floor("BOUND-UNIQ", 2)
+    ctx.floor("BOUND-LEN", 1)
+    ctx.floor("BOUND-UNIQ", 1)
     ctx.floor("BOUND-SITE", 2)
     ctx.floor("BOUND-CHARS", 3)
     ctx.floor("T5", 14)
